@@ -1,13 +1,9 @@
-NOTES = ("All checks: ./check <ID> [--tier quick|thorough]. Every run regenerates coq/Gen/*.v from /repo's working tree, "
-         "rebuilds the dependent proofs with make (full .vo), re-prints assumptions of every property theorem, and runs the "
-         "model-vs-implementation correspondence on freshly generated cases (seed = VERIF_SEED). Fix commits applied to /repo are "
-         "listed in known_findings.json.")
+import glob, json, os
+NOTES = "All checks: ./check <ID> [--tier quick|thorough]. Every run regenerates coq/Gen/*.v from /repo's working tree, rebuilds the dependent proofs with make (full .vo), re-prints assumptions of every property theorem, and runs the model-vs-implementation correspondence on freshly generated cases (seed = VERIF_SEED). Fix commits applied to /repo are listed in known_findings.json."
 NOT_APPLICABLE = {}
-CHECKS = {
- "C13": dict(
-   text="Theorems over all reals about the EVSE acceptance predicates, set_pilot and plugin as regenerated from evse.py on every run "
-        "(accept-iff per class, advertised values accepted, rejection leaves pilot/EV untouched, occupied plugin refused); "
-        "a differential run of the executable twin against the real classes at every decision boundary ties the model to the code.",
-   note="Trusted: Coq kernel, py2coq translator, harness. R theorems depend on the stdlib real-number axioms (sig_forall_dec, functional_extensionality_dep, classic as printed). "
-        "FiniteRatesEVSE constructor normalisation (set/sorted), max/min over the list, network info cache and Interface accessors are hand-modelled and tied by correspondence only. IEEE rounding not modelled."),
-}
+CHECKS = {}
+_d = os.path.join(os.path.dirname(os.path.abspath(__file__)), "manifest.d")
+for _p in sorted(glob.glob(os.path.join(_d, "C*.json"))):
+    CHECKS[os.path.basename(_p)[:-5]] = json.load(open(_p))
+if os.path.exists(os.path.join(_d, "not_applicable.json")):
+    NOT_APPLICABLE = json.load(open(os.path.join(_d, "not_applicable.json")))
